@@ -1,2 +1,4 @@
 import GoImap.Props.C16
 #print axioms GoImap.C16.b64_roundtrip
+#print axioms GoImap.C16.decode_encode
+#print axioms GoImap.C16.encode_printable
